@@ -50,6 +50,14 @@ inductive ExitCond where
   | notGood
   deriving Repr, DecidableEq
 
+/-- How much of the string `StrEndsWith( s, suffix )` looks at. -/
+inductive EndsWithShape where
+  /-- compares only the last `|suffix|` characters (`s.substr( sLen - suffixLen ).compare( suffix )`, `s.compare( pos, n, suf )`) -/
+  | suffixOnly
+  /-- may scan the whole string (`rfind`, `find`, a loop over `s`) -/
+  | wholeString
+  deriving Repr, DecidableEq
+
 /-- A `sprintf( buf, fmt, … )` call: capacity of `buf`, number of literal bytes in `fmt`,
 number of `%d` conversions, of `%s` conversions whose argument is a dictionary (schema) name or a literal,
 and of `%.*G` conversions. -/
